@@ -76,6 +76,10 @@ def _apply(cx, mido, entry, type_, base, vals, t0, attr, value):
             words.append('data=(%s)' % ','.join(str(x) for x in value))
         else:
             words.append('%s=%s' % (attr, value))
+        # a word that looks like a constructor argument must never switch the checks off
+        extra = ['', 'skip_checks=1', 'skip_checks=0'][cx.choice('extra_word', 3)] if getattr(cx, 'extra_words', False) else ''
+        if extra:
+            words.insert(1 + cx.choice('extra_pos', len(words)), extra)
         text = ' '.join(words)
         return lambda: mido.Message.from_str(text)
     raise AssertionError(entry)
@@ -86,13 +90,16 @@ def _apply(cx, mido, entry, type_, base, vals, t0, attr, value):
 def int_attr(cx, type, attr, entry):
     """Target attribute symbolic over a wide range through one entry point."""
     import mido
+    cx.extra_words = True
     base, vals, t0 = _base(cx, mido, type)
     v = cx.int('v', -WIDE, WIDE)
     ok = in_range(cx, attr, v)
     snap = dict(vars(base))
     res, exc = cx.raises(_apply(cx, mido, entry, type, base, vals, t0, attr, v), *REJECT, label='reject-type')
     if exc is not None:
-        cx.check(cx.Not(ok), 'rejected=>invalid')
+        if not (entry == 'from_str' and cx.valid(ok)):
+            # (a from_str text carrying a skip_checks word is rejected whatever the value: not judged here)
+            cx.check(cx.Not(ok), 'rejected=>invalid')
         cx.check(_unchanged(base, snap), 'rejected-leaves-original')
         return
     cx.check(ok, 'accepted=>valid')
